@@ -213,6 +213,59 @@ def _qcases(tier):
 
 
 # ---------------------------------------------------------------------------
+# L3, pixel-table output: exactly the stored records inside the window, in storage order, labelled with their pixel ids
+# ---------------------------------------------------------------------------
+def pixels_sym(p):
+    from engine import symh5
+    symh5.reset()
+    from .model import concrete_bins, build_cooler_sym
+    from .common import symcooler
+    sc = symcooler()
+    n, K, upper = p["n"], p["K"], p["upper"]
+    b1, b2, v = sym_pixels(n, K, upper)
+    path = scratch_file("c03p.cool")
+    build_cooler_sym(path, concrete_bins([n], "even"), b1, b2, {"count": v}, upper)
+    i0, i1, j0, j1 = (sym_int(k, 0, n) for k in ("i0", "i1", "j0", "j1"))
+    assume(and_(i0 <= i1, j0 <= j1))
+    cs = sym_int("chunksize", 1, K + 1)
+    keep_index = bool(sym_bool("keep_index"))
+    clr = sc.Cooler(path)
+    out = clr.matrix(balance=False, as_pixels=True, ignore_index=not keep_index, chunksize=cs)[i0:i1, j0:j1]
+    sel = [q for q in range(K) if bool(and_(i0 <= b1[q], b1[q] < i1, j0 <= b2[q], b2[q] < j1))]
+    cover("below_diagonal_window", i1 > j1)
+    cover("several_selected", len(sel) > 1)
+    R, C, V = list(out["bin1_id"].values), list(out["bin2_id"].values), list(out["count"].values)
+    if len(R) != len(sel):
+        prove(False, f"pixel output has {len(R)} rows, {len(sel)} stored records lie inside the window")
+        return None
+    prove(and_(*[and_(R[t] == b1[q], C[t] == b2[q], V[t] == v[q]) for t, q in enumerate(sel)]),
+          "pixel output is not the stored records inside the window in storage order")
+    idx = list(out.index.arr.items) if hasattr(out.index, "arr") else list(out.index)
+    if keep_index:
+        prove(and_(*[lab == q for lab, q in zip(idx, sel)]), "pixel output is not labelled with the records' pixel ids")
+    return dict(r=R, c=C, v=V, idx=idx if keep_index else None)
+
+
+def pixels_real(p, inputs):
+    import cooler
+    from .model import concrete_bins, build_cooler_real
+    n, K, upper = p["n"], p["K"], p["upper"]
+    b1, b2, v = pixels_from_inputs(inputs, K)
+    path = scratch_file("c03p.cool")
+    build_cooler_real(path, concrete_bins([n], "even"), b1, b2, {"count": v}, upper)
+    i0, i1, j0, j1 = (inputs[k] for k in ("i0", "i1", "j0", "j1"))
+    keep_index = bool(inputs["keep_index"])
+    out = cooler.Cooler(path).matrix(balance=False, as_pixels=True, ignore_index=not keep_index, chunksize=inputs["chunksize"])[i0:i1, j0:j1]
+    sel = [q for q in range(K) if i0 <= b1[q] < i1 and j0 <= b2[q] < j1]
+    got = list(zip(out["bin1_id"].tolist(), out["bin2_id"].tolist(), out["count"].tolist()))
+    if got != [(b1[q], b2[q], v[q]) for q in sel]:
+        raise OracleFailure(f"as_pixels window [{i0}:{i1},{j0}:{j1}] returned {got}, stored records inside are {[(b1[q], b2[q], v[q]) for q in sel]}")
+    if keep_index and out.index.tolist() != sel:
+        raise OracleFailure(f"as_pixels(ignore_index=False) labels {out.index.tolist()}, pixel ids are {sel}")
+    return dict(r=out["bin1_id"].tolist(), c=out["bin2_id"].tolist(), v=out["count"].tolist(), idx=out.index.tolist() if keep_index else None)
+
+
+# ---------------------------------------------------------------------------
 # slice spellings: _process_slice against Python's own slice resolution
 # ---------------------------------------------------------------------------
 def slice_body(env, p):
@@ -286,6 +339,11 @@ CHECKS = [
           doc="api.matrix dense/sparse == slice of the full matrix (symmetric completion / as stored), any chunk size",
           stubs=("E1 np.linspace", "E5 scipy.sparse.coo_matrix.toarray sums duplicates", "dict-backed HDF5 group"),
           bounds=dict(quick="n<=3, K<=2, all windows, chunksize 1..K+1", thorough="n<=4, K<=3"), timeout=3000, split_depth=7),
+    Check("pixel_output", lambda tier: [dict(n=n, K=K, upper=u) for n, K in ([(3, 2)] if tier == "quick" else [(3, 2), (3, 3), (4, 3)]) for u in (True, False)],
+          pixels_sym, pixels_real, labels=("below_diagonal_window", "several_selected"),
+          doc="Cooler.matrix(as_pixels=True) with and without the pixel-id index, both storage modes, any window and chunk size, on a cooler in the "
+              "in-memory HDF5 model: exactly the stored records inside the window, in storage order, labelled with their pixel ids",
+          bounds=dict(quick="n=3, K=2", thorough="n<=4, K<=3"), stubs=("E1", "E3", "E4"), timeout=2400, split_depth=7),
     Check("slices", _slice_cases, slice_sym, slice_real, labels=("negative", "open_end"),
           doc="_process_slice against Python's slice resolution; axis length symbolic, bounds unbounded",
           bounds=dict(quick="axis length <= 6, slice bounds unbounded integers or None", thorough="axis length <= 40")),
